@@ -298,6 +298,7 @@ type pair struct {
 	model *regModel
 	words map[string]token.Type // live retag table (harness state, read by the token interceptor)
 	acc   []regOp               // accepted operations (for the twin builder)
+	icpt  int                   // expression interceptors on the parser builder: 0 none, 1 pass-through, 2 re-entrant, 3 both
 }
 
 type regOp struct {
@@ -316,8 +317,12 @@ var wordPool = []string{"OPa", "OPb", "OPc", "OPd", "OPe", "OPf"}
 // outside the built-in range as any other name's.
 var oddNames = []string{"null", "true", "false", "function", "let", "if", "else", "while", "for", "return", "", " ", "+", "&&", "a b", "\u00e9", "EOF", "ILLEGAL"}
 
-func newPair() *pair {
-	p := &pair{lb: lexer.NewBuilder(), model: newRegModel(), words: map[string]token.Type{}}
+func newPair() *pair { return newPairWith(0) }
+
+// newPairWith: the builders may carry transparent expression interceptors (a pass-through one, one that parses
+// the prefix itself and lets the parser continue); registered operators must group the same with them.
+func newPairWith(icpt int) *pair {
+	p := &pair{lb: lexer.NewBuilder(), model: newRegModel(), words: map[string]token.Type{}, icpt: icpt}
 	p.lb.UseTokenInterceptor(func(l *lexer.Lexer, next func() token.Token) token.Token {
 		t := next()
 		if t.Type == token.IDENT {
@@ -328,6 +333,15 @@ func newPair() *pair {
 		return t
 	})
 	p.pb = parser.NewBuilder(p.lb)
+	if icpt&1 != 0 {
+		p.pb.UseExpressionInterceptor(func(_ *parser.Parser, next func() ast.Expression) ast.Expression { return next() })
+	}
+	if icpt&2 != 0 {
+		p.pb.UseExpressionInterceptor(func(ps *parser.Parser, _ func() ast.Expression) ast.Expression {
+			left := ps.ParsePrefixExpression()
+			return ps.ParseRemainingExpression(left)
+		})
+	}
 	return p
 }
 
@@ -662,7 +676,10 @@ func (e *Engine) Run(prop string, ch *kernel.Chooser, st *kernel.Stats) kernel.R
 	nPairs := 1 + ch.Weighted(3, 2)
 	pairs := make([]*pair, nPairs)
 	for i := range pairs {
-		pairs[i] = newPair()
+		pairs[i] = newPairWith(ch.Weighted(5, 1, 1, 1))
+		if pairs[i].icpt != 0 {
+			st.Inc("probe.builders_with_expression_interceptors")
+		}
 	}
 	if nPairs > 1 {
 		st.Inc("probe.two_builders_alive")
@@ -954,7 +971,7 @@ func (e *Engine) Run(prop string, ch *kernel.Chooser, st *kernel.Stats) kernel.R
 		if len(viol) > 0 {
 			break
 		}
-		twin := newPair()
+		twin := newPairWith(p.icpt)
 		for _, op := range p.acc {
 			id, refused := twin.applyReal(op)
 			if op.Kind == "tok" {
